@@ -715,7 +715,7 @@ Lemma next_item_msg b m rest :
 Proof.
   unfold next_item, c10_prefix_len.
   destruct (N.ltb_spec (N.of_nat (length b)) 4) as [|L4]; [discriminate|].
-  destruct (c10_max_response <? be_decode (firstn 4 b) 0); [discriminate|].
+  destruct (reader_accepts ClientOutputReader (be_decode (firstn 4 b) 0)); [|discriminate]. cbn [negb].
   destruct (N.ltb_spec (N.of_nat (length (skipn 4 b))) (be_decode (firstn 4 b) 0)) as [|Ls]; [discriminate|].
   assert (H4 : (4 <= length b)%nat) by lia.
   assert (Hle : (N.to_nat (be_decode (firstn 4 b) 0) <= length (skipn 4 b))%nat).
@@ -729,7 +729,7 @@ Qed.
 Lemma next_item_over b rest : next_item b = IOver rest -> exists pfx, b = pfx ++ rest.
 Proof.
   unfold next_item. destruct (N.of_nat (length b) <? c10_prefix_len); [discriminate|].
-  destruct (c10_max_response <? be_decode (firstn 4 b) 0).
+  destruct (negb (reader_accepts ClientOutputReader (be_decode (firstn 4 b) 0))).
   - intros E. injection E as Er. subst rest. exists (firstn 4 b). rewrite firstn_skipn. reflexivity.
   - destruct (N.of_nat (length (skipn 4 b)) <? be_decode (firstn 4 b) 0); discriminate.
 Qed.
